@@ -441,22 +441,30 @@ class WrapperMixin(object):
         """Write a doxygen comment block for a function.
         Uses brief, description, and return from docs.
         """
-        output.append(self.doxygen_begin)
-        if "brief" in docs:
-            output.append(self.doxygen_cont + " \\brief %s" % docs["brief"])
-            output.append(self.doxygen_cont)
-        if "description" in docs:
-            desc = docs["description"]
+        def text_lines(text):
             # Every line of the text is a comment line, with or
             # without a trailing newline (YAML | and |-).
-            lines = desc.split("\n")
-            if desc.endswith("\n"):
+            lines = str(text).split("\n")
+            if len(lines) > 1 and lines[-1] == "":
                 lines.pop()  # remove trailing newline
-            for line in lines:
+            return lines
+
+        output.append(self.doxygen_begin)
+        if "brief" in docs:
+            lines = text_lines(docs["brief"])
+            output.append(self.doxygen_cont + " \\brief %s" % lines[0])
+            for line in lines[1:]:
+                output.append(self.doxygen_cont + " " + line)
+            output.append(self.doxygen_cont)
+        if "description" in docs:
+            for line in text_lines(docs["description"]):
                 output.append(self.doxygen_cont + " " + line)
         if "return" in docs:
+            lines = text_lines(docs["return"])
             output.append(self.doxygen_cont)
-            output.append(self.doxygen_cont + " \\return %s" % docs["return"])
+            output.append(self.doxygen_cont + " \\return %s" % lines[0])
+            for line in lines[1:]:
+                output.append(self.doxygen_cont + " " + line)
         output.append(self.doxygen_end)
 
     def document_stmts(self, output, ast, stmt0, stmt1):
